@@ -8,8 +8,8 @@ import (
 
 	"google.golang.org/grpc/status"
 
-	"github.com/openconfig/gribigo/server"
 	spb "github.com/openconfig/gribi/v1/proto/service"
+	"github.com/openconfig/gribigo/server"
 
 	"verifh/internal/drive"
 	"verifh/internal/ev"
@@ -33,6 +33,9 @@ type Opts struct {
 	Fatal     int
 	FatalKind int
 	SrvOpts   []server.ServerOpt
+	// RuntimeVRFs: create the VRFs with Server.AddNetworkInstance after New
+	// instead of server.WithVRFs.
+	RuntimeVRFs bool
 	// AfterBatch is called at every observation point.
 	AfterBatch func(s *drive.Srv, m *model.RIB, v *ev.Verdict, when string)
 }
@@ -103,7 +106,17 @@ func RunHistory(h hgen.History, o Opts) (*ev.Verdict, *l1.Trace) {
 	v := &ev.Verdict{}
 	tr := &l1.Trace{}
 	P := o.P
-	s := drive.NewSrv(h.FwdRefs, hgen.NIs[1:], o.SrvOpts...)
+	var s *drive.Srv
+	if o.RuntimeVRFs {
+		s = drive.NewSrv(h.FwdRefs, nil, o.SrvOpts...)
+		for _, n := range hgen.NIs[1:] {
+			if err := s.S.AddNetworkInstance(n); err != nil {
+				panic(err)
+			}
+		}
+	} else {
+		s = drive.NewSrv(h.FwdRefs, hgen.NIs[1:], o.SrvOpts...)
+	}
 	m := model.New("DEFAULT", hgen.NIs[1:], h.FwdRefs)
 	fold := obs.State{}
 	type sent struct {
@@ -304,9 +317,16 @@ func RunHistory(h hgen.History, o Opts) (*ev.Verdict, *l1.Trace) {
 				if !ok {
 					continue
 				}
+				top := fk.Kind == gen.V4 || fk.Kind == gen.V6 || fk.Kind == gen.MPLS
 				if sn.op.GetOp() == spb.AFTOperation_DELETE {
+					if _, inst := fold[fk]; inst && top {
+						tr.TopDeletes++
+					}
 					delete(fold, fk)
 				} else {
+					if top {
+						tr.TopAcks++
+					}
 					fold[fk] = model.Canon(model.Payload(sn.op))
 				}
 			}
